@@ -35,3 +35,13 @@ impl<Pr: VInt, const P: usize> DecoderModel<P> for Tab<Pr, P> {
         (s, Pr::from_u128_trunc(self.cdf[s] as u128), Pr::from_u128_trunc((self.cdf[s + 1] - self.cdf[s]) as u128).into_nonzero().unwrap())
     }
 }
+
+/// A probability type narrower than the word type (`M::Probability: Into<Word>`): the coders must behave identically when the
+/// model's probabilities live in a narrower integer type than the coder's words.  Switched on by `--narrow`; used whenever
+/// the precision fits into the narrow type.
+pub static NARROW: core::sync::atomic::AtomicBool = core::sync::atomic::AtomicBool::new(false);
+pub fn narrow<N: VInt, const P: usize>() -> bool { NARROW.load(core::sync::atomic::Ordering::Relaxed) && P <= N::BITS }
+pub trait NarrowOf { type N: VInt; }
+macro_rules! narrow_of { ($($w:ty => $n:ty),*) => { $(impl NarrowOf for $w { type N = $n; })* } }
+use crate::tiny::*;
+narrow_of!(U2 => U1, U3 => U2, U4 => U3, u8 => U4, u16 => u8, u32 => u16, u64 => u32);
